@@ -29,6 +29,11 @@ impl Copy for BoundingBox {}
 impl ElemTable {
     /// HashMap<String, SvgElement> (assumed contract of insert)
     pub uninterp spec fn view(&self) -> Map<Seq<char>, SvgElement>;
+    /// `map.get(&k).cloned()`
+    #[verifier::external_body]
+    pub fn get_cloned(&self, k: &String) -> (r: Option<SvgElement>)
+        ensures (r is Some) == self@.dom().contains(k@), r is Some ==> r->Some_0 == self@[k@]
+    { unimplemented!() }
     #[verifier::external_body]
     pub fn insert(&mut self, k: String, v: SvgElement) -> (r: Option<SvgElement>)
         ensures final(self)@ == old(self)@.insert(k@, v), (r is None) == !old(self)@.dom().contains(k@)
@@ -263,6 +268,17 @@ impl TransformerContext {
 //@ - old(self).element_stack.len() > 0 ==> final(self).element_stack@ == old(self).element_stack@.drop_last()    @@C15.pop.element
 //@ - old(self).scope_stack.len() > 0 ==> final(self).scope_stack@ == old(self).scope_stack@.drop_last()    @@C15.pop.scope
 //@ - final(self).in_specs == old(self).in_specs && final(self).config == old(self).config
+//@end
+
+//@item src/context.rs :: impl TransformerContext :: fn set_element_content_bbox
+//@ replace[R-optmap] <<<self.elem_map.get(&id).cloned()>>> => <<<self.elem_map.get_cloned(&id)>>>
+//@ replace[R-closure] <<<eval_attr(&id, self).unwrap_or(id)>>> => <<<(match eval_attr(&id, self) { Ok(v) => v, Err(_) => id })>>>
+//@ ensures
+//@ - scope_untouched(*old(self), *final(self))
+//@ - final(self).original_map == old(self).original_map     @@C18.template.write_once
+//@ - final(self).elem_map@.dom() == old(self).elem_map@.dom()     @@C08.clip.registration_neither_adds_nor_drops
+//@ - forall|k: Seq<char>| #[trigger] old(self).elem_map@.dom().contains(k) ==>
+//@       final(self).elem_map@[k] == (SvgElement { content_bbox: final(self).elem_map@[k].content_bbox, ..old(self).elem_map@[k] })     @@C08.clip.registered_element_stays_resolved @@C10.clip.registered_element_stays_resolved @@C12.clip.registered_element_stays_resolved
 //@end
 
 //@item src/context.rs :: impl TransformerContext :: fn update_element
